@@ -151,6 +151,14 @@ reg("C09", "controlled scheduler (src/vsched.cc) under the unmodified threadpool
     "Sequentially consistent interleavings at mutex/condvar granularity; the block processor on top of the pool is exercised with real threads "
     "in C02 (schedule perturbation + ThreadSanitizer), not on the controlled scheduler.", "DESIGN.md 4/C09")
 
+reg("C10", "Hypothesis operation histories -> src/c10_hist.c (ASan): long-lived readers vs fresh readers after every step", "exploration",
+    "stateful property-based testing: differential between a long-lived reader set and freshly created readers over generated call histories",
+    "Histories of 3-40 reader API calls (14 kinds, valid arguments harvested by the independent parser, ~10% invalid ones) run on one long-lived "
+    "set of dir/data/xattr/meta readers; after every step the same call runs on a fresh set and (status, digest) must match. Images: tool-written "
+    "for every compressor (fragments, sparse, multi-block, out-of-line xattrs, 600 entry directory, export table), Python-written, and "
+    "field-damaged variants. Stream, positional and per-block file access must agree on readable files.",
+    "Directory readers use flags 0 (DOT_ENTRIES caching is documented as history dependent); digests are FNV-1a over payloads.", "DESIGN.md 4/C10")
+
 NOT_YET = {}
 
 ALL = ["C%02d" % i for i in range(1, 20)]
